@@ -9,13 +9,13 @@ CHECKS = {
  "C10": ("exploration", "One-shot calls with avail_out swept around the independently computed stored-block bound and tiny sizes with the output ending at a guard page; success must be a complete stream within the bound, failure must be STATELESS_OVERFLOW; streaming termination under 1..7-byte output chunks; invalid level/flush/level_buf refused before any output.",
          "bound formula from the property text; undersized level_buf may be reported with either documented error code",
          "runtime monitor of the output-space contract (guard pages, counters, bound oracle), bounded-progress monitor, invalid-parameter injection"),
- "C14": ("exploration", "Event-log monitor over streaming histories with scripted flush requests: at every completed flush call the output must end 00 00 FF FF in ZSTATE_NEW_HDR and decode (reference, prefix mode) to exactly the input fed so far; every completed FULL flush suffix is decoded in isolation; one-shot FULL_FLUSH chains are concatenated and decoded.",
+ "C14": ("exploration", "Event-log monitor over streaming histories with scripted flush requests: at every completed flush call the output must end 00 00 FF FF in ZSTATE_NEW_HDR and decode (reference, prefix mode) to exactly the input fed so far; every completed FULL flush suffix is decoded in isolation (also when the completing FULL call brought no input and added no output); flush calls of the other type without input are issued after completed flushes; one-shot FULL_FLUSH chains are concatenated and decoded.",
          "a flush point is judged exactly where the property defines it; reference decoder trusted",
          "offline checker over the per-call event log + independent prefix/suffix decode"),
  "C17": ("exploration", "Instrumented reference decode of streams produced from inputs with repeats straddling the requested window: maximum match distance must stay <= 2^hist_bits and inside output+dictionary, zlib CINFO must cover it; dictionary round trips (set_dict and process+reset) through reference and zlib; wrong-state dictionary calls must fail without side effects.",
          "reference decoder's distance accounting trusted; 8 KiB window in the hist8k/longer builds",
          "runtime monitor on match distances via instrumented independent decoder; differential dictionary round trips; state-snapshot comparison"),
- "C02": ("exploration", "Valid streams from a deflate-grammar generator (expected bytes known from the token list, no decoder involved), from zlib and from ISA-L are decoded in every wrapper mode, stateless and streaming under hostile schedules, under each decode-kernel CPU level; result, finish state, end position and checksum field must equal the independent reference.",
+ "C02": ("exploration", "Valid streams from a deflate-grammar generator (expected bytes known from the token list, no decoder involved), from zlib and from ISA-L are decoded in every wrapper mode, stateless and streaming under hostile schedules, under each decode-kernel CPU level; result, finish state, end position (streams are followed by foreign bytes) and checksum field must equal the independent reference; one-shot decode is also retried on the same struct after ISAL_OUT_OVERFLOW.",
          "generator emits only valid streams (cross-checked by the reference decoder: a disagreement is a harness failure)",
          "runtime differential oracle (grammar generator + independent inflate) over stream shapes, wrapper modes, schedules and decode kernels"),
  "C06": ("fault_enumeration", "Hostile inputs: 16 classes of grammar-level faults injected by the generator, bit flips / substitutions / truncations / trailer edits of valid streams, random bytes; decoded stateless with output sizes {0,1,7,8,exact-1,exact,exact+1,big} and streaming with random chunking in guard-page mappings on the assembly and the all-C ASan+bounds builds; completion is accepted only if the lenient independent decoder agrees; documented codes, progress and error classes monitored.",
@@ -24,22 +24,22 @@ CHECKS = {
  "C07": ("exploration", "Call-history exploration: compression and decompression driven by adversarial schedules (chunk-size tables around internal thresholds, refill/drain disciplines, flush changes, late end_of_stream, zero-length calls, fresh guard-page mapping per chunk released on consumption, every single split point for small streams); per-call event log checked for conservation and bounded progress, results compared with reference/one-shot decode.",
          "flush requests repeated only while unflushed input exists",
          "offline checker over per-call event logs + differential oracle against one-shot/reference results"),
- "C11": ("fault_enumeration", "Producer: trailers of every wrapped stream compared with reference CRC-32/ISIZE/Adler-32 of the input. Verifier: single-bit flips, substitutions, truncations and trailer edits of valid wrapped streams, with splits inside the trailer; success accepted only if the trailer bytes present match the reference checksum of the delivered bytes; state->crc compared after completion.",
+ "C11": ("fault_enumeration", "Producer: trailers of every wrapped stream compared with reference CRC-32/ISIZE/Adler-32 of the input, incl. one-shot calls with output space around the stored-block bound and an Adler saturation schedule. Verifier: single-bit flips, substitutions, truncations and trailer edits of valid wrapped streams, with splits inside the trailer; success accepted only if the trailer bytes present match the reference checksum of the delivered bytes; state->crc compared after completion.",
          "reference CRC/Adler anchored to published check values; *_NO_HDR modes do not verify (documented)",
          "single-fault injection over wrapped streams + checksum oracle recomputed from delivered bytes"),
  "C05": ("exploration", "Every kernel variant and the codec (one-shot and streaming) run with each buffer in its own mapping bounded by inaccessible pages, consumed chunks made PROT_NONE, canaries around every buffer, context invariants, and the all-C build under ASan + bounds; a fault or damaged canary is attributed to the buffer and the faulting library symbol.",
          "declared ranges follow the headers (gf tables 32*k*rows, documented alignment/multiples); in-buffer over-reads are invisible to page protection",
          "MMU guard pages + released-chunk histories + canaries + ASan/bounds, over generated workloads"),
- "C15": ("exploration", "(a) every dispatch slot is resolved by running the resolvers directly, then every writable page of libisal.so is made read-only before the first API call; a serial pass and 16 threads with independent contexts and shared read-only inputs run 11 API scenarios: any write to library data faults, results must equal the serial ones; (b) first calls raced from 2/4/16 threads in fresh processes; (c) un-warmed threaded workload on the all-C build under ThreadSanitizer; (e) every scenario repeated with 5 garbage prefills of context/level_buf/output/output structs at two addresses and after reset / re-init reuse histories: all observable results identical.",
+ "C15": ("exploration", "(a) every dispatch slot is resolved by running the resolvers directly, then every writable page of libisal.so is made read-only before the first API call; a serial pass and 16 threads with independent contexts and shared read-only inputs run 12 API scenarios (incl. inflate of streams with injected grammar faults): any write to library data faults, results must equal the serial ones; (b) first calls raced from 2/4/16 threads in fresh processes; (c) un-warmed threaded workload on the all-C build under ThreadSanitizer; (e) every scenario repeated with 5 garbage prefills of context/level_buf/output/output structs at two addresses and after reset / re-init reuse histories: all observable results identical.",
          "the universal quantifier over interleavings is replaced by the no-shared-writes observation plus stress; documented caller obligations (zeroed histogram) respected",
-         "hardware write protection of library data + differential prefill/address/reuse monitor + ThreadSanitizer + racing cold starts"),
+         "hardware write protection of library data + differential prefill/address/reuse monitor + ThreadSanitizer + racing cold starts + valgrind memcheck definedness tracking"),
  "C16": ("exploration", "The real resolvers run under the x86 trap flag with CPUID/XGETBV emulated for every configuration of a dependency-closed space (covering subset in quick, complete in thorough); for every distinct slot assignment a battery over all public APIs is single-step traced, executed instructions are classified from the binary's disassembly and must be available in every configuration mapping to that assignment; untraced codec implementations are covered by a disassembly sweep; deterministic results must agree across assignments.",
          "mapping of untested extensions to CPU generations (SSSE3/POPCNT/BMI); EVEX implies full AVX-512 G1; host supports all simulated configurations",
          "runtime observation of resolver decisions under simulated CPUs + single-step instruction tracing (disassembly sweep for the untraced remainder)"),
- "C18": ("exploration", "Thousands of histograms from 12 adversarial families through both builders: stored header parsed by an independent parser (complete codes), every symbol the encoder emits decoded by the reference, level-0 round trips (reference + zlib) under each level-0 kernel, install rules probed across stream states.",
+ "C18": ("exploration", "Thousands of histograms from 13 adversarial families through both builders, plus per-table worst-case literal+length+distance group data and constant-run-first data: stored header parsed by an independent parser (complete codes), every symbol the encoder emits decoded by the reference, level-0 round trips (reference + zlib) under each level-0 kernel, install rules probed across stream states.",
          "encoder lookup observed through igzip/huffman.h helpers; reference decoder trusted",
          "runtime differential oracle over generated histograms + independent header parse + per-symbol decode"),
- "C19": ("exploration", "Header writers compared byte for byte with an independent RFC 1952/1950 writer incl. too-small-output behaviour; readers fed independent bytes under every chunking with overflow resume and guard-page buffers; arbitrary bytes must give documented status codes.",
+ "C19": ("exploration", "Header writers compared byte for byte with an independent RFC 1952/1950 writer incl. too-small-output behaviour; readers fed independent bytes under every chunking with overflow resume and guard-page buffers; arbitrary bytes must give documented status codes and the same accept/reject verdict and end position as the independent parser; reference-written headers are also consumed through isal_inflate at every split point.",
          "FCHECK may be 0 or 31 when both valid; realloc semantics on overflow resume",
          "runtime differential oracle (independent header codec) + chunking histories + guard pages"),
  "C03": ("exploration", "Every exported encode/dot-product variant (and the dispatchers under simulated CPU levels through the real resolvers) executed on tens of thousands of generated cases with guard-page-placed buffers and compared byte for byte with an independent shift-and-xor GF(2^8) matrix product; held on the executions listed in the evidence, nothing is claimed about cases not run.",
@@ -51,7 +51,7 @@ CHECKS = {
  "C08": ("exploration", "Every xor/pq gen/check variant run on generated arrays (vects 3..257, documented length multiples and alignments) against Horner evaluation in an independent GF(2^8); checks must accept reference-consistent arrays and flag every injected single-byte corruption; out-of-contract vects with all vectors unmapped.",
          "trusts the reference field; documented alignment/length contract respected",
          "runtime differential oracle + single-byte fault injection + guard pages/unmapped vectors"),
- "C09": ("exploration", "gf_invert_matrix judged by an independent determinant and product on thousands of structured matrices; generator matrices compared with the closed formulas; every survivor set for all small (m,k) and minor enumeration for the documented Vandermonde families and Cauchy, recovered through the real encode path.",
+ "C09": ("exploration", "gf_invert_matrix judged by an independent determinant and product on thousands of structured matrices; generator matrices compared with the closed formulas; every survivor set for all small (m,k) and minor enumeration for the documented Vandermonde families and Cauchy, recovered through the real encode path under every simulated CPU level, erased rows only and all k blocks with the full inverse into a reused table buffer.",
          "trusts the independent GF(2^8) reference; equivalence of singular parity minors and undecodable survivor sets",
          "runtime differential oracle, complete enumeration of small configurations, sampled beyond"),
  "C12": ("exploration", "Complete enumeration of the finite domain (all operand pairs, all constants, all table entries, GFNI affine form on all pairs) in the default and GF_LARGE_TABLES builds against an independent shift-and-xor field.",
